@@ -60,4 +60,29 @@ theorem decodeInts_flatMap (ns : List Nat) (rest : Bytes) (h : ∀ b ∈ ns, b <
 theorem getLe_le (k n : Nat) (rest : Bytes) (h : n < 256 ^ k) : getLe k (le k n ++ rest) = (n, rest) := by
   simp [getLe, take_append_len _ _ k (le_length k n), drop_append_len _ _ k (le_length k n), leNat_le k n h]
 
+/-- A directory entry with a name that fits decodes to itself and occupies exactly one slot. -/
+theorem decode_encode_dirent (inum : Nat) (name : Bytes) (hi : inum < 2 ^ 64) (hn : name.length ≤ MAXNAMELEN) :
+    decodeDirEnt (encodeDirEnt inum name) = some (inum, name) ∧
+    (encodeDirEnt inum name).length = DIRENTSZ := by
+  have p64 : (2:Nat) ^ 64 = 256 ^ 8 := by decide
+  have hl : name.length < 256 ^ 8 := by simp [MAXNAMELEN] at hn; omega
+  rw [p64] at hi
+  have hlen : (encodeDirEnt inum name).length = DIRENTSZ := by
+    simp [encodeDirEnt, DIRENTSZ, MAXNAMELEN] at *; omega
+  refine ⟨?_, hlen⟩
+  unfold decodeDirEnt
+  have e1 : (encodeDirEnt inum name).take 8 = le 8 inum := by
+    simp [encodeDirEnt, take_append_len _ _ 8 (le_length 8 inum)]
+  have e2 : ((encodeDirEnt inum name).drop 8).take 8 = le 8 name.length := by
+    unfold encodeDirEnt
+    rw [List.append_assoc, List.append_assoc, drop_append_len _ _ 8 (le_length 8 inum),
+      take_append_len _ _ 8 (le_length 8 _)]
+  have e3 : ((encodeDirEnt inum name).drop 16).take name.length = name := by
+    unfold encodeDirEnt
+    have : (le 8 inum ++ le 8 name.length).length = 16 := by simp
+    rw [List.append_assoc (le 8 inum ++ le 8 name.length), drop_append_len _ _ 16 this, take_append_len _ _ _ rfl]
+  simp only [e1, e2, leNat_le 8 _ hi, leNat_le 8 _ hl, e3, hlen]
+  have : 16 + name.length ≤ DIRENTSZ := by simp [DIRENTSZ, MAXNAMELEN] at *; omega
+  simp [this]
+
 end GoNfsd.Model.Codec
